@@ -42,9 +42,10 @@ impl Duration {
 }
 
 impl From<std::time::Duration> for Duration {
+    /// Panics if the duration is longer than `u64::MAX` nanoseconds (about 584 years).
     fn from(duration: std::time::Duration) -> Self {
         Duration {
-            nanos: duration.as_nanos() as u64,
+            nanos: duration.as_nanos().try_into().expect("duration overflow"),
         }
     }
 }
